@@ -337,7 +337,9 @@ class Base(_BaseClass):
         if starttoken:
             resulttokens.append(starttoken)
             val = starttoken[1]
-            if '[' == val:
+            if Base._prods.IDENT == starttoken[0]:
+                pass
+            elif '[' == val:
                 bracket += 1
             elif '{' == val:
                 brace += 1
@@ -352,7 +354,12 @@ class Base(_BaseClass):
                     resulttokens.append(token)
                     break
 
-                if '{' == val:
+                # an identifier written as \7b has the value { too: only the
+                # delimiter itself nests or ends
+                isident = Base._prods.IDENT == typ
+                if isident:
+                    pass
+                elif '{' == val:
                     brace += 1
                 elif '}' == val:
                     brace -= 1
@@ -369,7 +376,7 @@ class Base(_BaseClass):
                 resulttokens.append(token)
 
                 if (brace == bracket == parant == 0) and (
-                    val in ends or typ in endtypes
+                    (val in ends and not isident) or typ in endtypes
                 ):
                     break
                 elif (
